@@ -8,22 +8,94 @@ INLINE = {"probables.utilities.is_valid_file", "probables.utilities.is_hex_strin
 # per-property level / assumptions / explanation used in evidence
 LEVELS = {}
 
-_PROOF_NOTE = ("trusted: the VC generator pyvc (built for this task), the enumerated library contracts and ghost axioms "
-               "listed in the evidence file, the encapsulation assumption; machine arithmetic on floats treated as real "
-               "arithmetic wherever floats occur")
+_PROOF_NOTE = ("trusted: the VC generator pyvc (built for this task), the enumerated library contracts and ghost theories "
+               "listed in the evidence file (each validated natively or over bit-vectors where stated), the encapsulation "
+               "assumption, hash strategies are pure; machine arithmetic on floats treated as real arithmetic wherever "
+               "floats occur")
+_T = "contract-based deductive verification (VCs generated from the real AST, discharged by z3)"
+_TB = _T + " + labelled bounded native stand-in"
+
+
+def _c(text, note="", cat="proof", tech=_T, ref=None):
+    return {"category": cat, "technique": tech, "text": text, "note": _PROOF_NOTE + ("; " + note if note else ""),
+            **({"design_ref": ref} if ref else {})}
+
 
 # properties claimed in MANIFEST.json
 CLAIMED = {
-    "C18": {"category": "proof", "technique": "contract-based deductive verification (VCs from the real AST, z3)",
-            "text": "fnv_1a, fnv_1a_32, default_fnv_1a, both decorator closures and the md5/sha256 bodies are verified against "
-                    "the published FNV-1a recurrence / digest-chain specifications by loop invariants for every key, depth and "
-                    "seed; determinism, prefix stability and text==UTF-8 are lemmas over those contracts",
-            "note": _PROOF_NOTE + "; user functions handed to the decorators are assumed pure (bytes functions: >= 8 bytes); "
-                    "md5/sha256 are uninterpreted"},
-    "C20": {"category": "proof", "technique": "contract-based deductive verification (VCs from the real AST, z3)",
-            "text": "every public Bitarray operation is verified against a whole-view postcondition (all 8*size_bytes bit "
-                    "positions, so padding bits too), index/value errors are raises-clauses with state-unchanged frames",
-            "note": _PROOF_NOTE + "; sizes below 2**53 (float division by 8 exact); val is an int as annotated; "
-                    "as_string is outside the proved part (string formatting)"},
+    "C01": _c("add_alt/check_alt/add/check/union of the in-memory and on-disk filter and add_alt/check_alt/growth of the expanding "
+              "filter are verified against whole-view postconditions (exactly the positions hash mod number_bits are or-ed in, "
+              "nothing else changes); lemmas: add establishes, every other add / union / growth / close+reopen / "
+              "bytes round trip preserves 'all positions of the key are set', which implies check",
+              "hex and path channels and the expanding filter's loader are covered only by the bounded history stand-in", tech=_TB),
+    "C02": _c("CountMinSketch add_alt/remove_alt/check_alt and the key-level wrappers are verified for all widths, depths and hash "
+              "lists (one counter per row, all others untouched, saturating arithmetic, returned value = following check); lemmas "
+              "give the lower bound under additions and own removals and the upper bound by the total",
+              "the lower bound under removals of OTHER colliding keys needs the multiset argument: only the bounded history "
+              "stand-in covers it", tech=_TB),
+    "C03": _c("CuckooFilter: _insert_fingerprint (eviction loop with havoc'd random choices, undo of a failed chain proved exact), "
+              "_setup_expand/_expand_logic/expand/add/remove/check verified over the occurrence-count view of the table: no "
+              "fingerprint is lost, a CuckooFilterFullError leaves the table unchanged",
+              "CountingCuckooFilter is outside the verifier's data model: native contracts in a small scope (bounded)", tech=_TB),
+    "C04": _c("bounded: all layouts reachable within 8-12 operations for quotient 3 (4) over small remainder alphabets plus deep "
+              "random walks, compared with a mathematical set after every step, every call under a time budget",
+              "no deductive claim for the slot-shifting loops (9 while loops over a cyclic table); one known finding",
+              cat="other", tech="bounded native exploration (stand-in; the family's reach ends at the while loops)"),
+    "C05": _c("Bloom and count-min export/__bytes__/frombytes/_load/_parse_* verified over a byte-stream model (explicit base-256 "
+              "digits); lemmas: load(export(x)) has the same geometry, counters and cells, and re-exports the same bytes; "
+              "on-disk reopen restores cells and count",
+              "expanding/rotating, counting Bloom, cuckoo formats and the hex/path channels: bounded history stand-in; one known "
+              "finding (fingerprint 0)", tech=_TB),
+    "C06": _c("the export contracts ARE the documented layout (cells, then footer fields at fixed offsets, little endian, bit i in "
+              "byte i div 8); the default hash is proved to be the published FNV-1a recurrence seeded per index; positions are "
+              "hash mod size by the add contracts",
+              "an independent reader and writer written from the documentation are compared with the library on random small "
+              "filters (bounded); export_c_header parsed back (bounded)", tech=_TB),
+    "C07": _c("proved in the real-arithmetic model: the Bloom geometry is the stated function of (n, float32(p)) with >= 1 hash, "
+              "float32 narrowing is idempotent so a reloaded filter re-derives the same geometry, sketch width/depth formulas and "
+              "2/width <= error_rate; the 7% clause and all floating-point behaviour: parameter sweep",
+              "float rounding is outside the solver's reach; one known finding (1 ulp)", cat="other", tech=_TB),
+    "C08": _c("CountingBloomFilter add_alt/remove_alt/check_alt verified with multiplicity (coinciding positions count once each), "
+              "lemmas: remove undoes add exactly, additions never lower a count, removing an absent key changes nothing",
+              "counting cuckoo filter: native contracts in a small scope (bounded)", tech=_TB),
+    "C09": _c("heap model of the list of sub-filters; add_alt/__check_for_growth/__add_bloom_filter/push verified; ghost lemma: "
+              "every sub-filter but the newest is exactly full, so expansions = max(0, ceil(I/est) - 1)"),
+    "C10": _c("rotation (4 branches), push, pop verified; the queue stays within 1..max_queue_size and every sub-filter within "
+              "capacity; sliding-window ghost lemma: a key inserted when absent is reported until (max_queue_size-1)*est further "
+              "effective insertions"),
+    "C11": _c("file/mmap model: an every-point invariant (file_ok) is proved after EVERY statement of add_alt, the base add loop, "
+              "__update, close and export; close + reopen lemmas restore cells, geometry and count",
+              "assumes an flushed 8-byte write is atomic and that a killed process keeps page-cache contents; power loss is out of scope"),
+    "C12": _c("union (Bloom, counting Bloom) and join (count-min) verified cell-wise with aliasing and on-disk operands; lemmas: "
+              "the result equals the structure fed both streams (homomorphism step)"),
+    "C13": _c("intersection and Jaccard verified (byte-wise and/or lemmas, popcount), None exactly for incompatible operands, "
+              "TypeError for foreign types, operands never modified (semantic frames + syntactic may-write closure)"),
+    "C14": _c("every mutator's contract carries the counter clause of its structure; statistics formulas are postconditions over "
+              "uninterpreted log/exp/pow", "quotient filter and counting cuckoo counters: bounded stand-ins", tech=_TB),
+    "C15": _c("the cuckoo table invariant (bucket sizes, placement, no duplicate, counter) is a postcondition of every operation of "
+              "CuckooFilter; capacity is written only by the expansion code (syntactic closure)",
+              "counting cuckoo and loaded tables: bounded", tech=_TB),
+    "C16": _c("saturating arithmetic is in the postconditions of add/remove/union/intersection/join for arbitrary amounts; typed-array "
+              "stores generate range obligations, so an OverflowError is a failed obligation"),
+    "C17": _c("dict model with size bookkeeping; function contracts describe the table update per branch; ghost lemmas (case split) "
+              "prove the table invariants of HeavyHitters and StreamThreshold over arbitrary histories",
+              "the heavy-hitters lemma assumes 'estimates only grow under additions' (proved separately for the sketch as P.C02)"),
+    "C18": _c("fnv_1a, fnv_1a_32, default_fnv_1a, both decorator closures and the md5/sha256 bodies are verified against the published "
+              "FNV-1a recurrence / digest-chain specifications by loop invariants for every key, depth and seed; determinism, "
+              "prefix stability and text==UTF-8 are lemmas over those contracts",
+              "user functions handed to the decorators are assumed pure (bytes functions: >= 8 bytes); md5/sha256 uninterpreted"),
+    "C19": _c("modifies-nothing frames on every query contract, 270+ syntactic may-write obligations over every read-only method and "
+              "property of every class, clear() == fresh lemmas"),
+    "C20": _c("every public Bitarray operation is verified against a whole-view postcondition (all 8*size_bytes bit positions, so "
+              "padding bits too), index/value errors are raises-clauses with state-unchanged frames",
+              "sizes below 2**53 (float division by 8 exact); val is an int as annotated; as_string is outside the proved part"),
 }
 NOT_APPLICABLE = {}
+
+LEVELS = {
+    "C04": {"level": "other", "explanation": "bounded stand-in only: exhaustive breadth-first exploration of reachable quotient-filter "
+            "layouts in a small scope plus deep random walks, against a mathematical set; the slot-shifting while loops are "
+            "outside the verifier's reach (no claim of proof)"},
+    "C07": {"level": "other", "explanation": "real-arithmetic-model obligations are discharged deductively; the floating-point clauses "
+            "(7% allowance, exact boundaries) are decided by a labelled parameter sweep"},
+}
